@@ -349,9 +349,12 @@ class Parser:
                 else:
                     if n < len(mac.defaults):
                         # NB: do not use positions from macro definition
+                        # - if no further argument follows, the current token
+                        #   is not part of the macro call: use start of call
+                        dpos = pos if 'A' in mac.args[n+1:] else start
                         arg = [copy.copy(t) for t in mac.defaults[n]]
                         for t in arg:
-                            t.pos = pos
+                            t.pos = dpos
                             t.pos_fix = True
             elif code == 'A':
                 if tok and tok.txt == '}':
